@@ -315,6 +315,28 @@ def run(prog, rep):
                               f'returning None never looks at it: when `{nm}` is the only non-empty part, diff() answers None - "no difference" - '
                               f'for two slivers that differ')
 
+    # R8: the services a node owns are compared like the services a component owns: by structure, not only by properties
+    rep.rule('R8', 'services present on both sides of a node comparison are compared by their interfaces too, not only by their properties', floor=1)
+    ncls = prog.cls('fim.slivers.network_node:NodeSliver')
+    from ..normalize import loopify
+    nfn = loopify(inline(prog, ncls, ncls.methods['diff'], exclude=('_dict_diff', '_dict_common')))
+    nenv = local_env(nfn)
+    svc_loops = [l for l in walk_no_nested(nfn) if isinstance(l, ast.For) and
+                 any(isinstance(x, ast.Attribute) and x.attr == 'network_services' for x in ast.walk(expand(l.iter, nenv))) and
+                 any(isinstance(c, ast.Call) and call_name(c) == 'prop_diff' for c in ast.walk(l)) and
+                 not any(isinstance(x, ast.Attribute) and x.attr in ('devices', 'attached_components_info') for x in ast.walk(expand(l.iter, nenv)))]
+    if not svc_loops:
+        raise AnalysisError('NodeSliver.diff: comparison of the services present on both sides not found')
+    for l in svc_loops:
+        deep = any(isinstance(c, ast.Call) and call_name(c) == 'diff' for c in ast.walk(l)) or \
+            any(isinstance(x, ast.Attribute) and x.attr == 'interface_info' for x in ast.walk(l))
+        rep.instance('R8', f'NodeSliver.diff: common node-level services: interfaces compared as well: {deep}')
+        if not deep:
+            rep.violation('R8', loc(ncls.module, l), 'NodeSliver.diff', 'common node-level services compared by prop_diff only',
+                          'a service the node owns on both sides (the service of a switch or of a facility) is compared by its properties only: '
+                          'a port or sub-interface added to it, removed from it or changed under it is not reported at all - diff() answers None '
+                          'in both directions - while the same edit under a component service is reported as SUB_INTERFACES')
+
     # R6: the SUB_INTERFACES flag
     rep.rule('R6', 'SUB_INTERFACES is raised for exactly the elements that can have sub-interfaces, and only for changes of sub-interfaces', floor=2)
     from .c18 import interface_kind_dispatch
